@@ -2,6 +2,10 @@ package main
 
 import (
 	"fmt"
+	"go/build"
+	"os"
+	"path/filepath"
+	"sync"
 
 	"k8s.io/gengo/parser"
 	"k8s.io/gengo/types"
@@ -121,4 +125,77 @@ func init() {
 	for _, p := range []string{"C01", "C06", "C20"} {
 		props[p] = common.UniverseProperty(p, common.UniImpl{Load: loadV1, LookupChecks: lookupChecksV1})
 	}
+	props["C11"] = common.LoadingProperty(common.UniImpl{Load: loadV1, LoadHistory: loadHistoryV1})
+}
+
+// ---- C11: loading histories through the real v1 Builder (GOPATH mode on a scratch tree) ----
+
+func writeGopath(prog *common.Program) (string, error) {
+	root, err := os.MkdirTemp("", "verif-gopath-")
+	if err != nil {
+		return "", err
+	}
+	for _, p := range prog.Pkgs {
+		dir := filepath.Join(root, "src", p.Path)
+		if err := os.MkdirAll(dir, 0o755); err != nil {
+			return root, err
+		}
+		if err := os.WriteFile(filepath.Join(dir, p.File), []byte(p.Source), 0o644); err != nil {
+			return root, err
+		}
+	}
+	return root, nil
+}
+
+var gopathMu sync.Mutex
+
+func loadHistoryV1(prog *common.Program, initial []string, steps [][]string) (*common.USnap, bool, []string, error) {
+	gopathMu.Lock()
+	defer gopathMu.Unlock()
+	root, err := writeGopath(prog)
+	if root != "" {
+		defer os.RemoveAll(root)
+	}
+	if err != nil {
+		return nil, false, nil, err
+	}
+	os.Setenv("GO111MODULE", "off")
+	os.Setenv("GOPATH", root)
+	build.Default.GOPATH = root
+	b := parser.New()
+	for _, p := range initial {
+		if err := b.AddDir(p); err != nil {
+			return nil, false, nil, fmt.Errorf("AddDir(%s): %v", p, err)
+		}
+	}
+	u, err := b.FindTypes()
+	if err != nil {
+		return nil, false, nil, err
+	}
+	stable := true
+	for _, step := range steps {
+		// objects obtained before the incremental load
+		before := map[types.Name]*types.Type{}
+		kinds := map[*types.Type]types.Kind{}
+		for _, pk := range u {
+			for _, t := range pk.Types {
+				before[types.Name{Package: pk.Path, Name: t.Name.Name}] = t
+				kinds[t] = t.Kind
+			}
+		}
+		for _, p := range step {
+			if _, err := b.AddDirectoryTo(p, &u); err != nil {
+				return nil, false, nil, fmt.Errorf("AddDirectoryTo(%s): %v", p, err)
+			}
+		}
+		for n, t := range before {
+			if n.Package == "" {
+				continue
+			}
+			if u.Type(types.Name{Package: t.Name.Package, Name: t.Name.Name}) != t || (kinds[t] != types.Unknown && t.Kind != kinds[t]) {
+				stable = false
+			}
+		}
+	}
+	return snapshotUniverse(u), stable, b.FindPackages(), nil
 }
